@@ -411,3 +411,40 @@ mod tests {
         case("-2345-06-07T08:09:01.000000Z", -136154620259, 0);
     }
 }
+
+/// Verification hooks: the same conversion and `Display` code path, on a
+/// caller-supplied instant.
+#[cfg(tracing_verif)]
+#[doc(hidden)]
+#[allow(missing_docs, unreachable_pub)]
+pub mod __verif {
+    use super::DateTime;
+
+    /// (year, month, day, hour, minute, second, nanos) of `DateTime::from(t)`
+    pub fn fields(t: std::time::SystemTime) -> (i64, u8, u8, u8, u8, u8, u32) {
+        let d = DateTime::from(t);
+        (d.year, d.month, d.day, d.hour, d.minute, d.second, d.nanos)
+    }
+
+    /// `Display` of `DateTime::from(t)` into `w`
+    pub fn write(t: std::time::SystemTime, w: &mut dyn std::fmt::Write) -> std::fmt::Result {
+        write!(w, "{}", DateTime::from(t))
+    }
+
+    /// `Display` of a `DateTime` with the given fields into `w`
+    pub fn write_fields(
+        f: (i64, u8, u8, u8, u8, u8, u32),
+        w: &mut dyn std::fmt::Write,
+    ) -> std::fmt::Result {
+        let d = DateTime {
+            year: f.0,
+            month: f.1,
+            day: f.2,
+            hour: f.3,
+            minute: f.4,
+            second: f.5,
+            nanos: f.6,
+        };
+        write!(w, "{}", d)
+    }
+}
